@@ -294,6 +294,11 @@ class Ctx:
         if not os.path.exists(hdir):
             shutil.copytree(HARNESS, hdir)
         shutil.copy(os.path.join(REPO, "go.sum"), os.path.join(hdir, "go.sum"))
+        if REPO != "/repo":
+            # development only (bin/matrix.py with several scratch worktrees): point the replace directive at that tree
+            gm = os.path.join(hdir, "go.mod")
+            txt = open(gm).read().replace("=> /repo", "=> " + REPO)
+            open(gm, "w").write(txt)
         t = time.time()
         r = subprocess.run(["go", "build", "-tags", "verif"] + (["-race"] if race else []) + ["-o", out, "./cmd/vh"], cwd=hdir,
                            env=goenv(), capture_output=True, text=True)
